@@ -121,8 +121,11 @@ Proof.
     destruct (has_comments m); injection H as <-; right; eexists; reflexivity. }
   destruct (d =? CB_composite); [|injection H as <-; left; reflexivity].
   destruct (tr_main ip true _) as [r|e]; cbn [bind] in H; [|discriminate].
-  destruct r; try discriminate. cbn [cc_composite] in H. cbv zeta in H.
-  destruct (cc_cm2 _ _ _); cbn [bind] in H; [|discriminate]. injection H as <-. right. eexists; reflexivity.
+  destruct r as [| | |c items]; try discriminate. cbn [cc_composite] in H.
+  destruct (cc_dictlike _).
+  - unfold cc_dict in H. cbv zeta in H.
+    destruct (cc_cm2 _ _ _); cbn [bind] in H; [|discriminate]. injection H as <-. right. eexists; reflexivity.
+  - apply cc_nondict_inv in H. right. eexists; exact H.
 Qed.
 
 Lemma comments_callback_gwf ip g h : gwf g = true -> comments_callback ip g = Ok h -> gwf h = true.
@@ -141,9 +144,12 @@ Proof.
   destruct (d =? CB_composite); [|injection H as <-; exact HG].
   destruct (tr_main ip true _) as [r|e] eqn:T; cbn [bind] in H; [|discriminate].
   pose proof (tr_main_W ip true _ r HG T) as HW.
-  destruct r; try discriminate. cbn [cc_composite] in H. cbv zeta in H.
-  destruct (cc_cm2 _ _ _); cbn [bind] in H; [|discriminate]. injection H as <-.
-  cbn [gwf]. apply W_setk_comments. exact HW.
+  destruct r as [| | |c items]; try discriminate. cbn [cc_composite] in H.
+  destruct (cc_dictlike _).
+  - unfold cc_dict in H. cbv zeta in H.
+    destruct (cc_cm2 _ _ _); cbn [bind] in H; [|discriminate]. injection H as <-.
+    cbn [gwf]. apply W_setk_comments. exact HW.
+  - apply cc_nondict_inv in H. subst h. exact HW.
 Qed.
 
 Theorem ctr_gwf ip : forall g h, gwf g = true -> ctr ip g = Ok h -> gwf h = true.
@@ -342,6 +348,27 @@ Proof.
   apply gnp_forall_mck. eapply gnp_children. exact HN.
 Qed.
 
+(* the non-dict __comments__ branch looks at the comments of the node, the
+   block type and the number of children of the block only *)
+Lemma cc_nondict_align cs cs' m items items' r r' h :
+  Grel_list cs cs' -> SI items = SI items' ->
+  cc_nondict cs m items r = Ok h -> exists h', cc_nondict cs' m items' r' = Ok h'.
+Proof.
+  intros HL HS H. unfold cc_nondict in *. destruct (has_comments m); [discriminate|].
+  pose proof (SI_assoc_E s_type items items' is_pos_type HS) as Ht.
+  destruct (assoc s_type items) as [ty|]; [|discriminate].
+  destruct (assoc s_type items') as [ty'|]; cbn [optE] in Ht; [|contradiction].
+  destruct ty as [[| | | |k| |]| | |]; try discriminate.
+  apply E_val_l in Ht. subst ty'.
+  destruct (str_eqb k s_metadata); [|eexists; reflexivity].
+  destruct cs as [|[t|d kids m0|v] cs]; try discriminate.
+  destruct cs' as [|c' cs']; [contradiction|]. destruct HL as [Hc _].
+  destruct c' as [t'|d' kids' m0'|v']; try contradiction.
+  rewrite Grel_node in Hc. destruct Hc as (_ & _ & Hk).
+  destruct kids as [|a [|b [|c0 l]]], kids' as [|a' [|b' [|c0' l']]]; cbn [Grel_list] in Hk; try tauto;
+    try discriminate; eexists; reflexivity.
+Qed.
+
 Lemma comments_callback_align ip ip' g g' h :
   Grel g g' -> gwf g = true -> gwf g' = true -> ip' = false \/ gkv g' = true -> gnp g' = true ->
   comments_callback ip g = Ok h -> exists h', comments_callback ip' g' = Ok h'.
@@ -366,10 +393,14 @@ Proof.
   destruct (tr_main_alignG ip ip' true _ _ r HR0 HG HG' HK T1) as [r' T2]. rewrite T2. cbn [bind].
   pose proof (tr_main_E ip ip' true _ _ r r' HR0 T1 T2) as He.
   destruct r as [| | |c items]; try discriminate. apply E_dict_l in He. destruct He as (items' & -> & HS).
-  cbn [cc_composite] in *. cbv zeta in *. rewrite (cc_cm0_E c items items' HS).
-  destruct (cc_cm2 cs items _) as [cm2|e] eqn:C1; cbn [bind] in H; [|discriminate].
-  destruct (cc_cm2_align cs cs' items items' _ cm2 HL (gnp_children _ _ _ HN) HS C1) as [cm2' ->].
-  cbn [bind]. eexists; reflexivity.
+  cbn [cc_composite] in *.
+  rewrite (cc_dictlike_E _ _ (cc_existing_E c items items' HS)).
+  destruct (cc_dictlike (cc_existing c items)).
+  - unfold cc_dict in *. cbv zeta in *. rewrite (cc_cm0_E c items items' HS).
+    destruct (cc_cm2 cs items _) as [cm2|e] eqn:C1; cbn [bind] in H; [|discriminate].
+    destruct (cc_cm2_align cs cs' items items' _ cm2 HL (gnp_children _ _ _ HN) HS C1) as [cm2' ->].
+    cbn [bind]. eexists; reflexivity.
+  - eapply cc_nondict_align; [exact HL|exact HS|exact H].
 Qed.
 
 Theorem ctr_align ip ip' : forall g g' h,
@@ -486,3 +517,12 @@ Definition cex_comment_tree : tree :=
 Theorem position_alignment_comments_on_to_off_unguarded_refuted :
   exists t : tree, (exists x, transform true true t = Ok x) /\ transform false true t = Err LarkVisitError.
 Proof. exists cex_comment_tree. split; [eexists; vm_compute; reflexivity|vm_compute; reflexivity]. Qed.
+
+(* a key-value entry spelled __comments__ (corrected model: the non-dict entry is
+   not replaced, the assignments into it raise): both position modes fail
+   together, no further guard is needed since the key __comments__ is not
+   __position__ and so is seen identically by the two runs *)
+Example comments_key_fails_in_both_position_modes :
+  let text := Str "MAP METADATA ""__comments__"" ""x"" ""a"" ""b"" END END" in
+  loads true true text = Err LarkVisitError /\ loads false true text = Err LarkVisitError.
+Proof. vm_compute. split; reflexivity. Qed.
